@@ -117,8 +117,10 @@ def run(tier):
             # from here on every read(2) on the input returns at most a few bytes (what a pipe, a network file system or a
             # signal does): each request must still return that chunk's exact data
             lines.append("shim_cap 0 %d" % (7, 60, 300, 5000, 33000)[(i // 5) % 5])
+        # every fourth sequence with buffers 37 bytes larger than the chunk needs: still exactly that chunk comes back
+        extra = -38 if (i % 4 == 2 and i % 5 != 3) else -1
         for (kind, k) in seq:
-            lines.append("%s 0 %d -1" % ("chunk_data" if kind == "d" else "chunk_comp_data", k))
+            lines.append("%s 0 %d %d" % ("chunk_data" if kind == "d" else "chunk_comp_data", k, extra))
         lines.append("end")
         scripts.append("\n".join(lines) + "\n"); meta.append((cid, fname, sink, seq))
     nproc = 12
